@@ -950,7 +950,8 @@ class Object(ObjectAliasMixin):
             return self.members[name].path
 
         # Name unknown and no more parent scope, could be a built-in.
-        if self.parent is None:
+        # Modules are the outermost scope: names are not looked up in parent packages.
+        if self.parent is None or self.is_module:
             raise NameResolutionError(f"{name} could not be resolved in the scope of {self.path}")
 
         # Name is parent, non-module object.
